@@ -13,6 +13,8 @@ Generated model SedovShock (`_run` lines 185-242) with its derivative certificat
     speed D = d r2/dt — for every geometry, density exponent and solution type (the solution type
     enters only through f, g, h and α).
 -/
+import EPV.Lemmas.HydroRobust
+import EPV.Lemmas.Bridge.SemiTac
 import EPV.Gen.SedovShockD
 import EPV.Lemmas.SedovFields
 import EPV.Spec.Jump
@@ -29,12 +31,20 @@ noncomputable section
 theorem sedov_us_is_shock_speed (p : SedovShock.P) {t : ℝ} (ht : 0 < t) :
     HasDerivAt (fun t => SedovShock.r2 p t) (SedovShock.us p t) t := by
   have hval : SedovShock.us p t = SedovShock.L1.r2_dt p t := by
-    simp only [epv_tree, epv_cond, not_le.mpr ht, if_false, epv_leaf, epv_deriv]
-    ring
+    -- t > 0 selects the computing leaf (whatever the guard looks like); then both sides are the same
+    -- rational expression in the atoms (E/(αρ₀))^(1/x), t^(2/x), t — compared up to normalisation
+    have ht0 := ht.ne'
+    simp only [epv_tree]
+    epv_semi_prune
+    all_goals (simp only [epv_leaf, epv_deriv] <;> epv_semi_eq)
   rw [hval]
-  refine (SedovShock.L1.r2_hasDerivAt_t p t ht).congr_of_eventuallyEq ?_
+  -- the certificate's side conditions (number and form follow the Python) are discharged from `ht`
+  epv_hydro_have_cert hcert : SedovShock.L1.r2_hasDerivAt_t p t
+  refine hcert.congr_of_eventuallyEq ?_
   filter_upwards [Ioi_mem_nhds ht] with s hs
-  simp only [epv_tree, epv_cond, not_le.mpr (Set.mem_Ioi.mp hs), if_false]
+  have hs0 : 0 < s := Set.mem_Ioi.mp hs
+  simp only [epv_tree]
+  epv_semi_prune
 
 /-- the states on the two sides of the shock as the code assigns them -/
 def preState (p : SedovShock.P) (t : ℝ) : State :=
